@@ -16,7 +16,7 @@ import (
 // With a fallback, the fallback is what gets resolved, also for a cyclic variable.
 func c08VarInvalid(c *core.Check) {
 	p := c.Prog
-	r := c.Rule("R16", "unusable var() references: (a) resolveVar has a boolean result that is true on every return reached when the variable is undefined or in the set of resolutions in progress and the fallback is empty; (b) in those cases with a fallback, the recursive resolution of the fallback is reached; (c) in cascadeValue, when that result is true neither Validate nor ExpandValidatePending is reached: the declaration is handled as invalid", 5)
+	r := c.Rule("R16", "unusable var() references: (a) resolveVar has a boolean result that is true on every return reached when the variable is undefined or in the set of resolutions in progress and there is no fallback (no comma), and false on every return reached when there is a comma with nothing after it: var(--a,) is replaced with nothing; (b) in those cases with a fallback, the recursive resolution of the fallback is reached; (c) in cascadeValue, when that result is true neither Validate nor ExpandValidatePending is reached: the declaration is handled as invalid", 7)
 	rv := p.Fn("html/tree", "resolveVar")
 	cv := p.Lookup("html/tree.(*ComputedStyle).cascadeValue")
 	if rv == nil || cv == nil {
@@ -71,7 +71,25 @@ func c08VarInvalid(c *core.Check) {
 			}
 		}
 	}
-	if len(hasAtoms) == 0 || len(fallbackAtoms) == 0 {
+	// the comma that introduces the fallback: IsLiteral(argument, ",") deciding a branch, and the condition of the
+	// loop that looks for it (true when a comma is found: the loop was entered)
+	var commaAtoms, commaLoopAtoms []ssa.Value
+	for _, a := range core.CondAtoms(rv) {
+		call, ok := a.(*ssa.Call)
+		if !ok || call.Call.StaticCallee() == nil || call.Call.StaticCallee().Name() != "IsLiteral" || len(call.Call.Args) != 2 {
+			continue
+		}
+		if k, ok := core.ConstStr(call.Call.Args[1]); !ok || k != "," {
+			continue
+		}
+		commaAtoms = append(commaAtoms, a)
+		if l := core.InnermostLoop(rv, call.Block()); l != nil && len(l.Header.Instrs) > 0 {
+			if ifi, ok := l.Header.Instrs[len(l.Header.Instrs)-1].(*ssa.If); ok {
+				commaLoopAtoms = append(commaLoopAtoms, core.IfCondAtoms(ifi.Cond)...)
+			}
+		}
+	}
+	if len(hasAtoms) == 0 || len(fallbackAtoms)+len(commaAtoms) == 0 {
 		r.Unknown("html/tree.resolveVar | scenarios", p.Pos(rv.Pos()), fmt.Sprintf("tests not found: %d membership tests of the set in progress, %d lookups with presence, %d tests of the fallback's length", len(hasAtoms), len(definedAtoms), len(fallbackAtoms)))
 		return
 	}
@@ -92,8 +110,13 @@ func c08VarInvalid(c *core.Check) {
 	type scen struct {
 		name              string
 		cyclic, hasFallbk bool
+		emptyFallbk       bool // var(--a,): a fallback that holds no token
 	}
-	for _, s := range []scen{{"undefined variable, no fallback", false, false}, {"cyclic variable, no fallback", true, false}, {"undefined variable, fallback", false, true}, {"cyclic variable, fallback", true, true}} {
+	scens := []scen{{"undefined variable, no fallback", false, false, false}, {"cyclic variable, no fallback", true, false, false}, {"undefined variable, fallback", false, true, false}, {"cyclic variable, fallback", true, true, false}}
+	if len(commaAtoms) > 0 {
+		scens = append(scens, scen{"undefined variable, empty fallback", false, true, true}, scen{"cyclic variable, empty fallback", true, true, true})
+	}
+	for _, s := range scens {
 		assign := map[ssa.Value]bool{}
 		for k, v := range base {
 			assign[k] = v
@@ -105,9 +128,18 @@ func c08VarInvalid(c *core.Check) {
 			assign[a] = false
 		}
 		for _, a := range fallbackAtoms {
-			assign[a] = fallbackPositive[a] == s.hasFallbk
+			assign[a] = fallbackPositive[a] == (s.hasFallbk && !s.emptyFallbk)
 		}
-		reach := core.ForwardReach(rv.Blocks[0], assign, nil)
+		// a fallback exists when the arguments hold a comma
+		for _, a := range commaAtoms {
+			assign[a] = s.hasFallbk
+		}
+		if s.hasFallbk {
+			for _, a := range commaLoopAtoms {
+				assign[a] = true
+			}
+		}
+		reach, edges := core.ForwardReachEdges(rv.Blocks[0], assign)
 		// a range loop over a list that is empty under the scenario is not entered: the list is a merge of nil and of
 		// appends made in blocks the scenario does not reach
 		for round := 0; round < 3; round++ {
@@ -130,14 +162,34 @@ func c08VarInvalid(c *core.Check) {
 				if emptyUnder(call.Call.Args[0], reach, 0) {
 					assign[a] = false
 					changed = true
+				} else if nonEmptyUnder(call.Call.Args[0], edges, 0) {
+					// the first iteration of a loop over a list that holds an element on every path taken
+					assign[a] = true
+					changed = true
 				}
 			}
 			if !changed {
 				break
 			}
-			reach = core.ForwardReach(rv.Blocks[0], assign, nil)
+			reach, edges = core.ForwardReachEdges(rv.Blocks[0], assign)
 		}
 		key := "html/tree.resolveVar | " + s.name
+		if s.emptyFallbk {
+			// the reference is replaced with nothing: no return reached reports it as invalid
+			okAll, n := true, 0
+			core.Instrs(rv, func(in ssa.Instruction) {
+				ret, ok := in.(*ssa.Return)
+				if !ok || !reach[in.Block()] || len(ret.Results) <= boolIdx {
+					return
+				}
+				n++
+				if k, ok := spilledResult(ret, boolIdx).(*ssa.Const); !ok || k.Value == nil || k.Value.String() != "false" {
+					okAll = false
+				}
+			})
+			r.Cond(okAll && n > 0, key, p.Pos(rv.Pos()), fmt.Sprintf("the %d returns reached use the empty fallback", n), "with a comma and nothing after it a return is reached that reports the reference as invalid: var(--a,) is valid and is replaced with nothing when --a cannot be used")
+			continue
+		}
 		if !s.hasFallbk {
 			okAll, n := true, 0
 			core.Instrs(rv, func(in ssa.Instruction) {
@@ -225,6 +277,39 @@ func emptyUnder(v ssa.Value, reach map[*ssa.BasicBlock]bool, depth int) bool {
 	return false
 }
 
+// nonEmptyUnder: the list holds an element on every control-flow edge taken: it is the result of an append of at
+// least one element, or a phi all of whose taken edges bring such a list.
+func nonEmptyUnder(v ssa.Value, edges map[[2]int]bool, depth int) bool {
+	if depth > 6 {
+		return false
+	}
+	switch x := v.(type) {
+	case *ssa.Call:
+		if b, ok := x.Call.Value.(*ssa.Builtin); ok && b.Name() == "append" && len(x.Call.Args) == 2 {
+			if sl, ok := x.Call.Args[1].(*ssa.Slice); ok {
+				if al, ok := sl.X.(*ssa.Alloc); ok {
+					if arr, ok := al.Type().Underlying().(*types.Pointer).Elem().Underlying().(*types.Array); ok && arr.Len() > 0 {
+						return true
+					}
+				}
+			}
+		}
+	case *ssa.Phi:
+		any := false
+		for i, e := range x.Edges {
+			if !edges[[2]int{x.Block().Preds[i].Index, x.Block().Index}] {
+				continue
+			}
+			any = true
+			if !nonEmptyUnder(e, edges, depth+1) {
+				return false
+			}
+		}
+		return any
+	}
+	return false
+}
+
 // spilledResult returns the value a return instruction yields for result idx: with a defer in the function the
 // named results live in locals, stored just before `rundefers` and loaded again for the return.
 func spilledResult(ret *ssa.Return, idx int) ssa.Value {
@@ -302,4 +387,56 @@ func c08VarFallbackCommas(c *core.Check) {
 	if n == 0 {
 		r.OK("html/tree.resolveVar | arguments of ParseFunction", p.Pos(rv.Pos()), "the comma-less list is not used at all")
 	}
+}
+
+// c08VarTrailingComma (R21): ParseFunction refuses a functional notation that ends with a comma, which is right for
+// every function but var(): `var(--a,)` is valid (an empty fallback).  HasVar recognises a reference through
+// ParseFunction, so a reference refused there makes the whole declaration invalid when it is parsed.  After the loop
+// over the arguments, when the name of the function was found equal to "var", no return gives the zero name.
+func c08VarTrailingComma(c *core.Check) {
+	p := c.Prog
+	r := c.Rule("R21", "var(--a,) is a function: in css/parser.ParseFunction, after the loop over the arguments, no return reached when the function name compares equal to \"var\" gives the empty name (the refusal of a trailing comma does not apply to var)", 1)
+	fn := p.Fn("css/parser", "ParseFunction")
+	if fn == nil {
+		r.Anchor("css/parser.ParseFunction")
+		return
+	}
+	key := "css/parser.ParseFunction | trailing comma of var()"
+	assign := map[ssa.Value]bool{}
+	for _, a := range core.CondAtoms(fn) {
+		if bo, ok := a.(*ssa.BinOp); ok && (bo.Op == token.EQL || bo.Op == token.NEQ) {
+			kx, okx := core.ConstStr(bo.X)
+			ky, oky := core.ConstStr(bo.Y)
+			if (okx && kx == "var") || (oky && ky == "var") {
+				assign[a] = bo.Op == token.EQL
+			}
+		}
+	}
+	if len(assign) == 0 {
+		r.Fail(key, p.Pos(fn.Pos()), "the name of the function is never compared with \"var\": a trailing comma is refused for var() like for the other functions, and `margin: 1px var(--a,) 2px` is dropped when parsed")
+		return
+	}
+	loops := core.Loops(fn)
+	if len(loops) != 1 {
+		r.Unknown(key, p.Pos(fn.Pos()), fmt.Sprintf("%d loops found, 1 expected", len(loops)))
+		return
+	}
+	bad, n := 0, 0
+	for _, exit := range loops[0].Header.Succs {
+		if loops[0].Blocks[exit] {
+			continue
+		}
+		reach := core.ForwardReach(exit, assign, nil)
+		core.Instrs(fn, func(in ssa.Instruction) {
+			ret, ok := in.(*ssa.Return)
+			if !ok || !reach[in.Block()] || len(ret.Results) == 0 {
+				return
+			}
+			n++
+			if k, ok := core.ConstStr(ret.Results[0]); ok && k == "" {
+				bad++
+			}
+		})
+	}
+	r.Cond(bad == 0 && n > 0, key, p.Pos(fn.Pos()), fmt.Sprintf("the %d returns reached after the loop give the name", n), "a return after the loop gives the empty name although the function is var: var(--a,) is refused")
 }
